@@ -319,12 +319,27 @@ func (e *Exec) access(p *PtrVal, size int, what string) (int, []int) {
 			}
 		}
 	}
-	n := int(hi)/step + 1
+	first := int64(0)
+	if int(hi)/step+1 > e.cfg.SymIdxCap {
+		// many positions below the largest one: find the smallest feasible offset as well (an index
+		// into a small array deep inside a large object has a large base and a small range)
+		lo, top := int64(0), hi
+		for lo < top {
+			mid := (lo + top) / 2
+			if r, _ := e.feasible(sym.ULE(off, sym.BV(uint64(mid), 64))); r == sym.Unsat {
+				lo = mid + 1
+			} else {
+				top = mid
+			}
+		}
+		first = lo - lo%int64(step)
+	}
+	n := int(hi-first)/step + 1
 	if n > e.cfg.SymIdxCap {
 		e.unsupported("symbolic offset with %d candidate positions in %s", n, p.Obj.Name)
 	}
 	c := make([]int, 0, n)
-	for o := 0; o <= int(hi); o += step {
+	for o := int(first); o <= int(hi); o += step {
 		c = append(c, o)
 	}
 	return -1, c
